@@ -261,7 +261,42 @@ def binop(ex, on, l, r):
         f = (lambda a, b: s_or(tobool(a), tobool(b))) if on == 'Add' else (lambda a, b: s_and(tobool(a), tobool(b)))
         return elementwise(ex, f, [l, r], 'bool')
     f = lambda a, b: ex.scalar_binop(on, a, b)
-    return _tag(elementwise(ex, f, [l, r], k), on, l, r)
+    out = elementwise(ex, f, [l, r], k)
+    if k == 'int' and isinstance(out, Arr) and on in ('Add', 'Sub', 'Mult', 'Pow', 'LShift'):
+        _small_int_guard(ex, on, l, r, out)
+    return _tag(out, on, l, r)
+
+
+_SMALL_INT = {'uint8': (0, 255), 'int8': (-128, 127), 'uint16': (0, 65535), 'int16': (-32768, 32767), 'uint32': (0, 2 ** 32 - 1), 'int32': (-2 ** 31, 2 ** 31 - 1)}
+
+
+def _small_int_guard(ex, on, l, r, out):
+    """numpy keeps a small integer dtype when both operands have it (or one is a python int that fits): the result then wraps
+    around silently.  Integers are mathematical in this executor, so the operation is only accepted when the mathematical result
+    provably fits the dtype; otherwise the path is outside the supported subset (undecided), never silently 'proved'."""
+    dl = l.np_dtype if isinstance(l, Arr) else (str(l.dtype) if isinstance(l, np.ndarray) else None)
+    dr = r.np_dtype if isinstance(r, Arr) else (str(r.dtype) if isinstance(r, np.ndarray) else None)
+    la, ra = isinstance(l, (Arr, np.ndarray)), isinstance(r, (Arr, np.ndarray))
+    res = None
+    if la and ra:
+        if dl in _SMALL_INT and dr in _SMALL_INT:
+            res = str(np.promote_types(dl, dr))
+    else:
+        d, sc = (dl, r) if la else (dr, l)
+        if d in _SMALL_INT and isinstance(conc(sc), (int, np.integer)) and not isinstance(conc(sc), bool):
+            lo, hi = _SMALL_INT[d]
+            v = int(conc(sc))
+            if lo <= v <= hi:
+                res = d                       # value-based casting: the array's dtype is kept
+    if res not in _SMALL_INT:
+        return
+    lo, hi = _SMALL_INT[res]
+    idx = tuple(ex.newvar('jw', 'int') for _ in range(out.ndim))
+    guard = z3.And(*[z3.And(i >= 0, i < tonum(n)) for i, n in zip(idx, out.shape)]) if idx else z3.BoolVal(True)
+    v = tonum(out.elem(idx))
+    if not ex.entails(z3.Implies(guard, z3.And(v >= lo, v <= hi))):
+        raise Unsupported(f'possible {res} wrap-around in array {on} (fixed-width integers are not modelled; the mathematical result may leave [{lo}, {hi}])')
+    out.np_dtype = res
 
 
 def _tag(res, on, l, r):
